@@ -73,7 +73,8 @@ Variable init : list proj.
 
 Definition is_zplus (p : proj) : bool :=
   negb (memb p init) && Qeqb (cost I p) 0 && Qltb 0 (score_of score p).
-Definition is_item (p : proj) : bool := negb (memb p init) && negb (Qeqb (cost I p) 0).
+Definition is_item (p : proj) : bool :=
+  negb (memb p init) && negb (Qeqb (cost I p) 0) && Qleb 0 (score_of score p).
 Definition mk_item (p : proj) : kitem := mkItem p (cost I p) (score_of score p).
 
 Lemma memb_app_single q alloc p : q <> p -> memb q (alloc ++ [p]) = memb q alloc.
@@ -99,7 +100,9 @@ Proof.
         -- rewrite IH; [rewrite <- app_assoc; reflexivity|exact Hr|].
            intros q Hq. rewrite memb_app_single; [apply Hrest; exact Hq|]. intros ->. contradiction.
         -- apply IH; assumption.
-      * rewrite IH; [rewrite <- app_assoc; reflexivity|exact Hr|exact Hrest].
+      * destruct (Qleb 0 (score_of score p)) eqn:Es; simpl.
+        -- rewrite IH; [rewrite <- app_assoc; reflexivity|exact Hr|exact Hrest].
+        -- apply IH; assumption.
 Qed.
 End Scheme.
 
@@ -108,7 +111,6 @@ Variable I : inst.
 Variable score : list Q.
 Variables enum init : list proj.
 Hypothesis Hcost : Forall (fun c => 0 <= c) (costs I).
-Hypothesis Hscore : Forall (fun s => 0 <= s) score.
 Hypothesis Henum_nd : NoDup enum.
 Hypothesis Henum : forall p, In p enum <-> (p < nproj I)%nat.
 Hypothesis Hinit_nd : NoDup init.
@@ -116,15 +118,8 @@ Hypothesis Hinit : incl init enum.
 Hypothesis Hinit_feas : tcost I init <= budget I.
 
 Notation zplus := (filter (is_zplus I score init) enum).
-Notation itemps := (filter (is_item I init) enum).
+Notation itemps := (filter (is_item I score init) enum).
 Notation its := (map (mk_item I score) itemps).
-
-Lemma score_nonneg p : 0 <= score_of score p.
-Proof.
-  unfold score_of. destruct (Nat.lt_ge_cases p (length score)) as [H|H].
-  - rewrite Forall_forall in Hscore. apply Hscore. apply nth_In. exact H.
-  - rewrite nth_overflow by exact H. apply Qle_refl.
-Qed.
 
 Lemma zplus_cost0 : tcost I zplus == 0.
 Proof.
@@ -137,8 +132,9 @@ Lemma its_wf : Forall (fun it => 0 < kw it /\ 0 <= kp it) its.
 Proof.
   rewrite Forall_forall. intros it Hit. apply in_map_iff in Hit. destruct Hit as (p & <- & Hp).
   apply filter_In in Hp. destruct Hp as [_ Hp]. unfold is_item in Hp.
+  apply andb_true_iff in Hp. destruct Hp as [Hp Hs]. apply Qleb_iff in Hs.
   apply andb_true_iff in Hp. destruct Hp as [_ Hp]. apply negb_true_iff, Qeqb_false_iff in Hp.
-  cbn [mk_item kw kp]. split; [|apply score_nonneg].
+  cbn [mk_item kw kp]. split; [|exact Hs].
   assert (H0 := cost_nonneg I p Hcost). destruct (Qlt_le_dec 0 (cost I p)) as [H|H]; [exact H|].
   exfalso. apply Hp. lra.
 Qed.
@@ -146,13 +142,13 @@ Qed.
 Lemma its_kproj : map kproj its = itemps.
 Proof. rewrite map_map. cbn [mk_item kproj]. apply map_id. Qed.
 
-Lemma in_its it : In it its -> exists p, it = mk_item I score p /\ In p enum /\ is_item I init p = true.
+Lemma in_its it : In it its -> exists p, it = mk_item I score p /\ In p enum /\ is_item I score init p = true.
 Proof.
   intros H. apply in_map_iff in H. destruct H as (p & <- & Hp). apply filter_In in Hp.
   exists p. tauto.
 Qed.
 
-Theorem maxwelfare_pd_optimal_lemma :
+Theorem maxwelfare_pd_optimal_gen :
   exists res, maxwelfare_pd I score enum init = Some res /\
     feasible I res /\ incl init res /\
     (forall W', feasible I W' -> incl init W' -> welfare score W' <= welfare score res).
@@ -181,7 +177,7 @@ Proof.
     - apply sublist_map. exact Hsub.
     - eapply Permutation_NoDup; [apply Permutation_map; apply (isort_perm eff_geb)|].
       rewrite its_kproj. apply NoDup_filter. exact Henum_nd. }
-  assert (Hsel_p : forall p, In p (map kproj sel) -> In p enum /\ is_item I init p = true).
+  assert (Hsel_p : forall p, In p (map kproj sel) -> In p enum /\ is_item I score init p = true).
   { intros p Hp. apply in_map_iff in Hp. destruct Hp as (it & <- & Hit).
     destruct (in_its it (Hsel_in it Hit)) as (p & -> & Hpe & Hpi). cbn [mk_item kproj]. tauto. }
   assert (Hzplus_p : forall p, In p zplus -> In p enum /\ is_zplus I score init p = true)
@@ -194,6 +190,7 @@ Proof.
         intros p Hp1 Hp2. destruct (Hzplus_p p Hp2) as [_ Hz]. unfold is_zplus in Hz.
         apply memb_In in Hp1. rewrite Hp1 in Hz. discriminate.
       * intros p Hp1 Hp2. destruct (Hsel_p p Hp2) as [_ Hi]. unfold is_item in Hi.
+        apply andb_true_iff in Hi. destruct Hi as [Hi _].
         apply andb_true_iff in Hi. destruct Hi as [Hi1 Hi2].
         unfold alloc in Hp1. apply in_app_or in Hp1. destruct Hp1 as [Hp1|Hp1].
         -- apply memb_In in Hp1. rewrite Hp1 in Hi1. discriminate.
@@ -210,15 +207,15 @@ Proof.
     intros W' (HWnd & HWr & HWc) HWi.
     assert (HWe : incl W' enum) by (intros p Hp; apply Henum; apply HWr; exact Hp).
     (* the items of W' as a sub-list of the item list *)
-    set (S'' := map (mk_item I score) (filter (fun p => is_item I init p && memb p W') enum)).
+    set (S'' := map (mk_item I score) (filter (fun p => is_item I score init p && memb p W') enum)).
     assert (HS''sub : sublist S'' its).
     { unfold S''. apply sublist_map. apply filter_sublist_stronger'.
       intros p Hp. apply andb_true_iff in Hp. tauto. }
     destruct (sublist_perm_transfer its (sort_items its) (isort_perm eff_geb its) S'' HS''sub)
       as (S0 & HS0 & HP0).
-    assert (HS''w : kweight S'' == Qsum (map (fun p => if is_item I init p && memb p W' then cost I p else 0) enum)).
+    assert (HS''w : kweight S'' == Qsum (map (fun p => if is_item I score init p && memb p W' then cost I p else 0) enum)).
     { unfold kweight, S''. rewrite map_map. cbn [mk_item kw]. apply Qsum_filter. }
-    assert (HS''p : kprofit S'' == Qsum (map (fun p => if is_item I init p && memb p W' then score_of score p else 0) enum)).
+    assert (HS''p : kprofit S'' == Qsum (map (fun p => if is_item I score init p && memb p W' then score_of score p else 0) enum)).
     { unfold kprofit, S''. rewrite map_map. cbn [mk_item kp]. apply Qsum_filter. }
     assert (HW'c : tcost I W' == Qsum (map (fun p => if memb p W' then cost I p else 0) enum))
       by (apply sum_over_enum; assumption).
@@ -238,7 +235,8 @@ Proof.
       assert (Hc := cost_nonneg I p Hcost). unfold is_item.
       destruct (memb p init) eqn:Ei; cbn [negb andb].
       - rewrite (Hmemb p Ei). lra.
-      - destruct (negb (Qeqb (cost I p) 0)); cbn [andb]; destruct (memb p W'); lra. }
+      - destruct (negb (Qeqb (cost I p) 0)); destruct (Qleb 0 (score_of score p)); cbn [andb];
+          destruct (memb p W'); lra. }
     assert (HS0w : kweight S0 <= cap).
     { unfold kweight. rewrite <- (Qsum_perm_proper _ _ (Permutation_map kw HP0)). fold (kweight S''). lra. }
     assert (Hbest := Hopt S0 HS0 HS0w).
@@ -247,13 +245,25 @@ Proof.
     (* welfare of W' is at most welfare of init + zplus + its items *)
     assert (Hdecomp : welfare score W' <= welfare score init + welfare score zplus + kprofit S'').
     { rewrite HW'w, Hiw, Hzw, HS''p, <- !Qsum_map_plus. apply Qsum_map_le. intros p _.
-      assert (Hs := score_nonneg p). unfold is_zplus, is_item.
+      unfold is_zplus, is_item.
       destruct (memb p init) eqn:Ei; cbn [negb andb].
       - rewrite (Hmemb p Ei). lra.
       - destruct (Qeqb (cost I p) 0); cbn [negb andb].
         + destruct (Qltb 0 (score_of score p)) eqn:Es; destruct (memb p W'); try lra.
-          apply Qltb_false_iff in Es. lra.
-        + destruct (memb p W'); lra. }
+          * apply Qltb_iff in Es. lra.
+          * apply Qltb_false_iff in Es. lra.
+        + destruct (Qleb 0 (score_of score p)) eqn:Es; cbn [andb]; destruct (memb p W'); try lra.
+          apply Qleb_false_iff in Es. lra. }
     unfold alloc. rewrite !welfare_app, Hsel_wel. lra.
 Qed.
 End Main.
+
+(* the statement with the (no longer needed) hypothesis of non-negative satisfactions, kept for its users *)
+Theorem maxwelfare_pd_optimal_lemma : forall (I : inst) (score : list Q) (enum init : list proj),
+  Forall (fun c => 0 <= c) (costs I) -> Forall (fun s => 0 <= s) score ->
+  NoDup enum -> (forall p, In p enum <-> (p < nproj I)%nat) ->
+  NoDup init -> incl init enum -> tcost I init <= budget I ->
+  exists res, maxwelfare_pd I score enum init = Some res /\
+    feasible I res /\ incl init res /\
+    (forall W', feasible I W' -> incl init W' -> welfare score W' <= welfare score res).
+Proof. intros I score enum init Hc _. apply maxwelfare_pd_optimal_gen. exact Hc. Qed.
